@@ -422,7 +422,7 @@ func (fr *frame) applyContract(ct *Contract, callee *ssa.Function, sig *types.Si
 			continue
 		}
 		if hasTag(cl.Tags, "assumed") && !ct.Trusted && !ct.NoVerify {
-			vc.usedSpecs["contract:assumed postcondition of "+ct.Key+": "+cl.Text] = true
+			vc.usedSpecs["contract:assumed postcondition of "+shortKey(ct.Key)+": "+cl.Text] = true
 		}
 		if g == "false" {
 			// the callee does not return (os.Exit, panic helpers)
